@@ -365,4 +365,63 @@ theorem installGroups_succeeded (gs : List (Int × List Str)) :
     · simpa [h] using ih
     · simp [h, succeeded]
 
+theorem installDirsPy_succeeded (w : Bool) (steps : List DirStep) :
+    succeeded (installDirsPy w steps) = dirsDone w steps := by
+  induction steps with
+  | nil => rfl
+  | cons s rest ih =>
+    obtain ⟨p, mk, att⟩ := s
+    cases mk with
+    | some e => simp [installDirsPy, succeeded, dirsDone]
+    | none =>
+      cases w with
+      | false => simpa [installDirsPy, dirsDone] using ih
+      | true =>
+        cases att with
+        | some e => simp [installDirsPy, succeeded, dirsDone]
+        | none => simpa [installDirsPy, dirsDone] using ih
+
+theorem installDirsPy_codeOk (w : Bool) (steps : List DirStep) : CodeOk (installDirsPy w steps) := by
+  induction steps with
+  | nil => trivial
+  | cons s rest ih =>
+    obtain ⟨p, mk, att⟩ := s
+    cases mk with
+    | some e => simp [installDirsPy, CodeOk]
+    | none =>
+      cases w with
+      | false => simpa [installDirsPy] using ih
+      | true =>
+        cases att with
+        | some e => simp [installDirsPy, CodeOk]
+        | none => simpa [installDirsPy] using ih
+
+/-- nothing after the first failing directory is attempted: the outcome only depends on the steps up to it -/
+theorem installDirsPy_stops (w : Bool) (pre : List DirStep) (s : DirStep) (post1 post2 : List DirStep)
+    (hs : dirsDone w [s] = false) :
+    installDirsPy w (pre ++ s :: post1) = installDirsPy w (pre ++ s :: post2) := by
+  induction pre with
+  | nil =>
+    obtain ⟨p, mk, att⟩ := s
+    cases mk with
+    | some e => simp [installDirsPy]
+    | none =>
+      cases w with
+      | false => simp [dirsDone] at hs
+      | true =>
+        cases att with
+        | some e => simp [installDirsPy]
+        | none => simp [dirsDone] at hs
+  | cons q pre ih =>
+    obtain ⟨p, mk, att⟩ := q
+    cases mk with
+    | some e => simp [installDirsPy]
+    | none =>
+      cases w with
+      | false => simpa [installDirsPy] using ih
+      | true =>
+        cases att with
+        | some e => simp [installDirsPy]
+        | none => simpa [installDirsPy] using ih
+
 end Pkgcore.C32
